@@ -21,6 +21,8 @@ use crate::{
 
 thread_local! {
     static SINKS: RefCell<Vec<Vec<Seen>>> = const { RefCell::new(Vec::new()) };
+    /// Events that reached a sink with a timestamp other than the one they were fed with.
+    static RESTAMPED: std::cell::Cell<usize> = const { std::cell::Cell::new(0) };
     static COUNTERS: RefCell<Vec<[usize; 6]>> = const { RefCell::new(Vec::new()) };
 }
 
@@ -31,6 +33,11 @@ pub struct SRec(pub usize);
 impl Writer<TW> for SRec {
     type Cli = cli::Empty;
     async fn handle_event(&mut self, ev: RawItem, _: &cli::Empty) {
+        if let Ok(e) = &ev {
+            if e.at != std::time::UNIX_EPOCH + std::time::Duration::from_secs(1_000) {
+                RESTAMPED.with(|r| r.set(r.get() + 1));
+            }
+        }
         SINKS.with(|s| s.borrow_mut()[self.0].push(Seen::Event(erase(&canon::canon(&ev)))));
     }
 }
@@ -504,6 +511,7 @@ pub fn run_one(
 ) -> Option<String> {
     let (_, nrec, expr, mk) = nest;
     SINKS.with(|s| *s.borrow_mut() = vec![Vec::new(); *nrec]);
+    RESTAMPED.with(|r| r.set(0));
     let mut real = mk();
     let mut rf = RefState::new(*nrec);
     for (k, x) in seq.iter().enumerate() {
@@ -517,6 +525,12 @@ pub fn run_one(
                     rf.feed(expr, x);
                 }
             }
+        }
+        if RESTAMPED.with(std::cell::Cell::get) > 0 {
+            return Some(format!(
+                "after input #{k} ({}) an event reached an inner writer with a new timestamp: combinators forward (or replay) the event they were given, metadata included",
+                render_in(x)
+            ));
         }
         let got = SINKS.with(|s| s.borrow().clone());
         if got != rf.sinks {
